@@ -49,7 +49,7 @@ Definition is_erc20 (m : method) : bool :=
 
 (** The check made before anything else happens.
     staking spends:   isCallerDelegator (then delegatorHexAddr := origin) or origin = delegator
-    createValidator:  origin = delegator
+    createValidator:  origin = delegator and caller = origin (no authorization covers MsgCreateValidator: only the signer itself)
     distribution:     caller = delegator/validator or origin = delegator/validator
     ICS-20 transfer:  caller = sender or origin = sender
     staking / ICS-20 approve family: no account is named but the grantee; the granter is evm.Origin
@@ -58,7 +58,7 @@ Definition is_erc20 (m : method) : bool :=
 Definition accepts_identity (m : method) (o c named : N) : bool :=
   match m with
   | SDelegate | SUndelegate | SRedelegate | SCancelUnbonding => N.eqb c named || N.eqb o named
-  | SCreateValidator => N.eqb o named
+  | SCreateValidator => N.eqb o named && N.eqb c o
   | DSetWithdrawAddress | DWithdrawDelegatorRewards | DWithdrawValidatorCommission | DClaimRewards =>
       N.eqb c named || N.eqb o named
   | ITransfer => N.eqb c named || N.eqb o named
